@@ -1,4 +1,25 @@
+use osv::checks::{self, Args};
+
 fn main() {
     osv::panicmon::install();
-    println!("stub");
+    let a = Args::parse();
+    let t0 = std::time::Instant::now();
+    let mut r = match a.check.as_str() {
+        "selftest" => {
+            let f = refimpl::selftest::run();
+            for l in &f {
+                eprintln!("SELFTEST FAIL: {l}");
+            }
+            std::process::exit(if f.is_empty() { 0 } else { 3 });
+        }
+        "c03" => checks::c03::run(&a),
+        "c04" => checks::c04::run(&a),
+        "c11" => checks::c11::run(&a),
+        other => {
+            eprintln!("unknown check {other}");
+            std::process::exit(2);
+        }
+    };
+    r.extra.insert("wall_s".into(), serde_json::json!(t0.elapsed().as_secs_f64()));
+    checks::finish(&a, r);
 }
